@@ -231,6 +231,8 @@ def dictSet {κ ν} [BEq κ] : Dict κ ν → κ → ν → Dict κ ν
 def dictOf {κ ν} [BEq κ] (items : List (κ × ν)) : Dict κ ν :=
   items.foldl (fun d kv => dictSet d kv.1 kv.2) []
 
+/-- `del d[k]` / the removal half of `d.pop(k)` for a key that is present -/
+def dictDel {κ ν} [BEq κ] (d : Dict κ ν) (k : κ) : Dict κ ν := d.filter fun p => !(p.1 == k)
 def dictKeys {κ ν} (d : Dict κ ν) : List κ := d.map (·.1)
 def dictValues {κ ν} (d : Dict κ ν) : List ν := d.map (·.2)
 
